@@ -276,10 +276,12 @@ class DirichletOperator(MCMCOperator):
 
     @MCMCOperator.adaptable_parameter.getter
     def adaptable_parameter(self) -> float:
-        return math.log(self._scaler)
+        # the proposal Dirichlet(scaler * x) gets bolder as the scaler DEcreases:
+        # tune -log(scaler) so that acceptance above target widens the proposal
+        return -math.log(self._scaler)
 
     def set_adaptable_parameter(self, value: float) -> None:
-        self._scaler = math.exp(value)
+        self._scaler = math.exp(-value)
 
     def _step(self) -> Tensor:
         old_values = self.parameters[0].tensor
